@@ -17,27 +17,35 @@ type Harness struct {
 
 // Explorer enumerates all schedules with at most Bound preemptions.
 type Explorer struct {
-	Setup      func() Harness
-	OnViolate  func(key string, res *Result)
-	Deadline   time.Time
-	Outcomes   map[string]int
-	ByPreempt  map[int]int
-	Bound      int
-	MaxSteps   int
-	Shard      int // this worker
-	Shards     int // number of workers (0/1 = no sharding)
-	Executions int
-	MaxPoints  int
-	subtree    int
-	Capped     bool
-	HarnessErr string
+	Setup               func() Harness
+	OnViolate           func(key string, res *Result)
+	Deadline            time.Time
+	Outcomes            map[string]int
+	ByPreempt           map[int]int
+	Bound               int
+	MaxSteps            int
+	Shard               int // this worker
+	Shards              int // number of workers (0/1 = no sharding)
+	Executions          int
+	MaxPoints           int
+	subtree             int
+	Capped              bool
+	HarnessErr          string
+	TSetup, TRun, TRest time.Duration
 	// Outcome, if set, summarises an execution for the distinct-outcome count.
 	Outcome func(res *Result) string
 }
 
 func (x *Explorer) runOne(prefix []int, expect []string) *Result {
+	t0 := time.Now()
 	h := x.Setup()
+	t1 := time.Now()
+	CheckGoid = x.Executions < 30
 	res := Run(prefix, expect, x.MaxSteps, h.Threads)
+	t2 := time.Now()
+	x.TSetup += t1.Sub(t0)
+	x.TRun += t2.Sub(t1)
+	defer func() { x.TRest += time.Since(t2) }()
 	if len(res.Abort) > 14 && res.Abort[:14] == "nondeterminism" {
 		x.HarnessErr = res.Abort
 		if h.Cleanup != nil {
